@@ -201,7 +201,7 @@ func supervised(body func(r *rc)) func(r *engine.Run) {
 	return func(r *engine.Run) {
 		switch {
 		case inChild():
-			if r.Family() == "deep-source" {
+			if r.Family() == "deep-source" || r.Family() == "deep-mixed" {
 				// Deeply nested source text: keep Go's default 1 GB maximum stack (a
 				// death must be one a default embedding would suffer too) and leave
 				// room for it in the address space.
@@ -460,6 +460,10 @@ func parseKeyAux(family, key string) map[string]string {
 	case family == "deep-source":
 		if len(f) == 4 {
 			a["group"], a["construct"], a["depth"], a["closed"], a["route"] = f[0], f[0], f[1], f[2], f[3]
+		}
+	case family == "deep-mixed":
+		if len(f) == 3 {
+			a["group"], a["cycle"], a["depth"], a["route"] = "mixed", f[0], f[1], f[2]
 		}
 	case family == "walk-mutation":
 		if len(f) == 5 {
